@@ -197,7 +197,9 @@ class Tr:
 FS_FUNC = re.compile(r"^(os\.|shutil\.|tempfile\.|path_obj\.|target_path\.|io\.)|^(open|atomic_write_octave|validate_octave_path)$"
                      r"|\.(read|write|read_text|write_text|exists|unlink|mkdir|rename|replace|touch|open|is_symlink|stat)$"
                      r"|^self\._validate_path$")
-GUARD_NAMES = ("base_hash", "file_exists", "corrections_only")
+# guards that decide WHICH reads/compares run: CAS guards, the dry-run guard, and the mode dispatch (normalize falls into the
+# content-mode `else:` branch and reads the file a second time -- the model transcribes that)
+GUARD_NAMES = ("base_hash", "file_exists", "corrections_only", "normalize_mode", "changes")
 
 
 def call_sites(stmts):
@@ -225,12 +227,19 @@ def call_sites(stmts):
             return
         if isinstance(node, ast.If):
             names = {n.id for n in ast.walk(node.test) if isinstance(n, ast.Name)}
-            if names & set(GUARD_NAMES):
+            guard = bool(names & set(GUARD_NAMES))
+            if guard:
                 out.append("if|" + u(node.test))
             for n in ast.walk(node.test):
                 visit_call(n, ctx)
-            for s in node.body + node.orelse:
+            for s in node.body:
                 walk(s, ctx)
+            if guard and node.orelse:
+                out.append("else|" + u(node.test))
+            for s in node.orelse:
+                walk(s, ctx)
+            if guard:
+                out.append("endif|" + u(node.test))
             return
         if isinstance(node, (ast.With, ast.For, ast.While)):
             hdr = node.items if isinstance(node, ast.With) else [node.iter] if isinstance(node, ast.For) else [node.test]
